@@ -1,7 +1,9 @@
 package rules
 
 import (
+	"go/token"
 	"go/types"
+	"strings"
 
 	"golang.org/x/tools/go/ssa"
 
@@ -110,6 +112,26 @@ func (c *Ctx) nilResultUses(fns []*ssa.Function, report func(use ssa.Instruction
 							what = "method " + cc.Method.Name() + " is called on it"
 							break
 						}
+						// handed to a function outside the module under a parameter type that has
+						// methods (io.Reader, io.Writer, …): the callee is going to call them
+						if g := eng.StaticCallee(cc); g != nil && !eng.InModule(g) && !cc.IsInvoke() {
+							sig := g.Signature
+							for i, a := range cc.Args {
+								if a != l.v {
+									continue
+								}
+								pi := i
+								if sig.Recv() != nil {
+									pi = i - 1
+								}
+								if pi < 0 || pi >= sig.Params().Len() || (sig.Variadic() && pi == sig.Params().Len()-1) {
+									continue
+								}
+								if it, isI := sig.Params().At(pi).Type().Underlying().(*types.Interface); isI && it.NumMethods() > 0 && !isErrorType(sig.Params().At(pi).Type()) {
+									what = "it is handed to " + eng.CalleeName(cc) + " as a " + types.TypeString(sig.Params().At(pi).Type(), nil) + ", whose methods that function calls"
+								}
+							}
+						}
 						if g := eng.StaticCallee(cc); g != nil && eng.InModule(g) && len(g.Blocks) > 0 {
 							for i, a := range cc.Args {
 								if a == l.v && i < len(g.Params) && derefsParam(g.Params[i]) {
@@ -193,4 +215,112 @@ func errJudgedByHelper(ev ssa.Value, at *ssa.BasicBlock) bool {
 		}
 	}
 	return false
+}
+
+// errContradictions decides two contradiction patterns in fns (functions that return an error):
+//
+//	(a) a return whose error is built from another error (fmt.Errorf/errors wrap with that error
+//	    among the arguments) at a point where that error is known to be nil: the failure report
+//	    sits on the success edge — and the real failures take the other, "all is well" path;
+//	(b) a return of a constant nil error that is dominated by the non-nil edge of an error some
+//	    call of the function produced, with no sentinel/not-exist test in between: the failure
+//	    branch itself reports success.
+//
+// Both are wrong whatever the surrounding code means, so the rule needs no table of idioms.
+func (c *Ctx) errContradictions(rule string, fns []*ssa.Function, consequence string) int {
+	p, r := c.P, c.R
+	n := 0
+	ord := map[string]int{}
+	for _, fn := range fns {
+		res := fn.Signature.Results()
+		if res.Len() == 0 || !isErrorType(res.At(res.Len()-1).Type()) || len(fn.Blocks) == 0 {
+			continue
+		}
+		// errors produced by calls of this function
+		var errs []ssa.Value
+		eng.EachInstr(fn, func(in ssa.Instruction) {
+			call, ok := in.(*ssa.Call)
+			if !ok {
+				return
+			}
+			if tup, isT := call.Type().(*types.Tuple); isT {
+				if tup.Len() > 0 && isErrorType(tup.At(tup.Len()-1).Type()) {
+					if e := extractOf(call, tup.Len()-1); e != nil {
+						errs = append(errs, e)
+					}
+				}
+			} else if isErrorType(call.Type()) {
+				errs = append(errs, call)
+			}
+		})
+		eng.EachInstr(fn, func(in ssa.Instruction) {
+			ret, ok := in.(*ssa.Return)
+			if !ok || in.Parent() != fn || eng.IsRecoverBlock(ret.Block()) {
+				return
+			}
+			rr := eng.ReturnResults(ret)
+			if len(rr) == 0 {
+				return
+			}
+			e := eng.ResolveLocalLoad(rr[len(rr)-1])
+			n++
+			cons := siteCons(p, in, ord, "return")
+			// (a)
+			if wc, isCall := e.(*ssa.Call); isCall {
+				nm := eng.CalleeName(wc.Common())
+				if nm == "fmt.Errorf" || strings.HasPrefix(nm, "github.com/pkg/errors.Wrap") || nm == "errors.Join" {
+					wrapsNil := ""
+					eng.BackSlice(e, func(v ssa.Value) bool {
+						for _, ev := range errs {
+							for _, al := range append(eng.ValueAliases(ev), ev) {
+								if v == al && eng.KnownNil(ev, ret.Block()) {
+									wrapsNil = p.InstrPos(ev.(ssa.Instruction))
+								}
+							}
+						}
+						return false
+					})
+					if wrapsNil != "" {
+						r.Bad(rule, cons, p.InstrPos(ret), "this return reports a failure built from the error of %s, which is known to be nil here: the test is the wrong way round — a call that succeeded is answered with an error, and one that failed goes on as if it had succeeded; %s", wrapsNil, consequence)
+						return
+					}
+				}
+			}
+			// (b)
+			if eng.IsNilConst(e) {
+				for _, ev := range errs {
+					if !eng.KnownNonNil(ev, ret.Block()) {
+						continue
+					}
+					// excused by a sentinel / not-exist test on the way
+					excused := false
+					for _, b := range fn.Blocks {
+						for k := 0; k < len(b.Succs) && len(b.Succs) == 2; k++ {
+							if !eng.EdgeDominates(b, k, ret.Block()) {
+								continue
+							}
+							if rel, okR := eng.EdgeRel(b, k); okR && (rel.Op == token.EQL || rel.Op == token.NEQ) && !eng.IsNilConst(rel.X) && !eng.IsNilConst(rel.Y) {
+								excused = true
+							}
+							if v, _, okT := eng.CondTruth(b, k); okT {
+								if cc, isC := v.(*ssa.Call); isC {
+									excused = true // a classifier call (os.IsNotExist, errors.Is, a module helper)
+									_ = cc
+								}
+								if _, isPhi := v.(*ssa.Phi); isPhi {
+									excused = true
+								}
+							}
+						}
+					}
+					if !excused {
+						r.Bad(rule, cons, p.InstrPos(ret), "this return reports success although it lies on the branch where the error of %s is not nil: %s", p.InstrPos(ev.(ssa.Instruction)), consequence)
+						return
+					}
+				}
+			}
+			r.Ok(rule, cons, p.InstrPos(ret), "no failure built from a nil error, no success on a failure branch")
+		})
+	}
+	return n
 }
